@@ -78,13 +78,22 @@ class RequestContextHolder:
     def update_request_start(cls, new_request_start):
         meta = cls.request_context.get()
         # this can happen if multiple requests are sent on the wire for one logical request (e.g. scrolls)
-        if "request_start" not in meta:
+        # or if sub-requests run concurrently; always keep the earliest start
+        if new_request_start is None:
+            return
+        current = meta.get("request_start")
+        if current is None or new_request_start < current:
             meta["request_start"] = new_request_start
 
     @classmethod
     def update_request_end(cls, new_request_end):
         meta = cls.request_context.get()
-        meta["request_end"] = new_request_end
+        # sub-requests may finish in a different order than they exit their context; always keep the latest end
+        if new_request_end is None:
+            return
+        current = meta.get("request_end")
+        if current is None or new_request_end > current:
+            meta["request_end"] = new_request_end
 
     @classmethod
     def on_request_start(cls):
